@@ -9,7 +9,7 @@
    reproduces byte for byte. *)
 From Coq Require Import String NArith List Bool.
 From RC Require Import lib.Result model.Layout model.TrigTable model.RichCodec model.Str model.StrEditor model.Alloc
-  proofs.C04_proofs proofs.C04_readback proofs.C04_locations proofs.C07_slots model.RichIo proofs.C08_proofs proofs.C09_proofs proofs.Save_strings proofs.Save_refs gen.GenTrig spec.SpecTrig gen.GenFlags gen.GenConsts.
+  proofs.C04_proofs proofs.C04_readback proofs.C04_locations proofs.C04_cuwps proofs.C07_triggers proofs.C07_slots model.RichIo proofs.C08_proofs proofs.C09_proofs proofs.Save_strings proofs.Save_refs gen.GenTrig spec.SpecTrig gen.GenFlags gen.GenConsts.
 Import ListNotations.
 Local Open Scope N_scope.
 
@@ -139,3 +139,19 @@ Theorem C04_a_loaded_location_table_has_one_location_per_number :
   forall L v ls, mrgn_decode L v = Ok ls -> NoDup (map fst (by_idx ls)).
 Proof. exact loaded_location_table_has_one_location_per_number. Qed.
 Print Assumptions C04_a_loaded_location_table_has_one_location_per_number.
+
+(* ... unit-property sets: the number written into a Create-Unit-with-Properties action for a set c names a slot of the REBUILT
+   table holding properties equal to c's (carried index still sitting there, an equal slot reused, or a newly placed one) *)
+Theorem C04_the_number_written_for_a_unit_property_set_names_equal_properties :
+  forall r cs up cx c i,
+    filter (named "UPRP") r = [RUprp cs] -> rebuild_uprp r = Ok up -> cx_cuwps cx = up ->
+    NoDup (map fst (cby_idx cs)) ->
+    id_by_cuwp cx c = Ok i ->
+    exists k, assocN_last i (cby_idx up) = Some k /\ rcuwp_eqb c k = true.
+Proof. exact saved_cuwp_number_names_the_set. Qed.
+Print Assumptions C04_the_number_written_for_a_unit_property_set_names_equal_properties.
+
+Theorem C04_a_loaded_unit_property_table_has_one_set_per_number :
+  forall v cs, uprp_decode v = Ok cs -> NoDup (map fst (cby_idx cs)).
+Proof. exact loaded_uprp_table_has_one_set_per_number. Qed.
+Print Assumptions C04_a_loaded_unit_property_table_has_one_set_per_number.
